@@ -235,7 +235,11 @@ def run_shard(shard):
     tier = shard["tier"]
     if shard["what"] == "compute":
         return _run_compute(shard, out)
-    depth = 2 if tier == "quick" else 3
+    # (thorough: two levels, the second one over every event from every state
+    # reached by one xarray-related / registration / dispatch event and over the
+    # core events elsewhere; a third level over all 160 events took more than
+    # two hours and could not be re-verified after the alphabet grew)
+    depth = 2
     evs = events()
     seen = {}
     frontier = [[]]
@@ -254,7 +258,7 @@ def run_shard(shard):
             # (quick) states reached by one xarray-related event are also
             # expanded over every event: an import-time side effect of any
             # submodule that depends on xarray being loaded first shows there
-            full = tier != "quick" or level == 0 or (len(h) == 1 and h[0] == "import:xarray")
+            full = level == 0 or (len(h) == 1 and (h[0] == "import:xarray" or (tier != "quick" and h[0] in ("import:dask_array._xarray", "import:dask_array.xarray", "register_via_private", "register", "isactive", "dask_dispatch", "import:dask_array"))))
             level_evs = evs if full else core
             for c0 in range(0, len(level_evs), 6):
                 jobs.append((h, level_evs[c0:c0 + 6]))
